@@ -1,17 +1,29 @@
 #!/bin/sh
-# tools/confirm_seeded.sh [dir...] : confirm each seeded change in a scratch worktree of /repo:
+# tools/confirm_seeded.sh [-j N] [dir...] : confirm each seeded change in its own scratch worktree of /repo:
 #   demo passes on the clean tree, fails with the patch, and the repository's tests still pass with the patch.
-WT=/tmp/cijverif.confirm.$$
-git -C /repo worktree add -q --detach $WT HEAD || exit 2
-cd $WT
+J=4
+if [ "$1" = "-j" ]; then J=$2; shift 2; fi
 [ $# -eq 0 ] && set -- /verif/seeded/*/
+one() {
+  d=${1%/}; name=$(basename $d)
+  W=/tmp/cijverif.confirm.$$.$name
+  git -C /repo worktree add -q --detach $W HEAD 2>/dev/null || { echo "$name: cannot create worktree"; return; }
+  cd $W
+  PYTHONPATH=$W /venv/bin/python $d/demo.py > /dev/null 2>&1; c=$?
+  if git apply $d/patch.diff 2>/dev/null; then
+    PYTHONPATH=$W /venv/bin/python $d/demo.py > /dev/null 2>&1; m=$?
+    t=$(PYTHONPATH=$W timeout 1500 /venv/bin/python -m pytest -q -p no:cacheprovider tests 2>&1 | grep -E "^[0-9]+ (passed|failed)|passed" | tail -1)
+    echo "$name: demo clean=$c patched=$m tests: $t"
+  else
+    echo "$name: PATCH DOES NOT APPLY"
+  fi
+  cd /; git -C /repo worktree remove --force $W 2>/dev/null || rm -rf $W
+}
+n=0
 for d in "$@"; do
-  d=${d%/}
-  PYTHONPATH=$WT /venv/bin/python $d/demo.py > /dev/null 2>&1; c=$?
-  git apply $d/patch.diff || { echo "$d: PATCH DOES NOT APPLY"; continue; }
-  PYTHONPATH=$WT /venv/bin/python $d/demo.py > /dev/null 2>&1; m=$?
-  t=$(PYTHONPATH=$WT timeout 1500 /venv/bin/python -m pytest -q -p no:cacheprovider tests 2>&1 | grep -E "^[0-9]+ (passed|failed)|passed" | tail -1)
-  git checkout -q -- . ; git clean -fdq examples
-  echo "$(basename $d): demo clean=$c patched=$m tests: $t"
+  one "$d" &
+  n=$((n+1))
+  if [ $((n % J)) -eq 0 ]; then wait; fi
 done
-cd /; git -C /repo worktree remove --force $WT
+wait
+git -C /repo worktree prune
